@@ -261,7 +261,7 @@ theorem merr_ok_bind {β γ : Type} (v : β) (f : β → MErr γ) : (Except.ok v
 /-! ### `_csc_symv` -/
 
 section symv
-variable [CommRing α]
+variable [CommRing α] [DecidableEq α]
 
 /-- one inner-loop step of `Residuals.symv` -/
 def symvStep (x : Array α) (a : α) (col : Nat) (xcol : α) (y : Array α) (e : Nat × α) :
@@ -293,9 +293,12 @@ theorem symv_eq (A : Csc α) (y x : Array α) (a b : α)
     (hA : Canonical A) (hsq : A.m = A.n) (hx : x.size = A.n) (hy : y.size = A.n) :
     Residuals.symv A y x a b = Csc.symv A y x a b := by
   unfold Residuals.symv Csc.symv
-  have hsz : (Vec.scale y b).size = A.n := by simp [Vec.scale, hy]
-  have hsz' : (Array.map (fun v => v * b) y).size = A.n := by simp [hy]
-  simp only [hx, hsz, hsz', hsq, bne_self_eq_false, Bool.false_eq_true, if_false,
+  -- the two prologues (zero fill for `b == 0`, scaling otherwise; /repo 1706c1f) are the same term
+  have hpro : (if (b == 0) = true then Array.map (fun _ => (0 : α)) y
+      else Array.map (fun v => v * b) y) = symvB b y := by
+    unfold symvB Vec.scale; rfl
+  have hsz : (symvB b y).size = A.n := by rw [symvB_size, hy]
+  simp only [hpro, hx, hsz, hsq, bne_self_eq_false, Bool.false_eq_true, if_false,
     symv_mapM_eq A x a hA hsq hx]
   rw [bind_pure, List.flatten_flatten, symvTerms, List.map_map,
     ← scatterS_eq_scatter "symv: y", ← foldlM_scatterS_flatten]
